@@ -217,6 +217,23 @@ def sibling_constructor_agreement(ctx, rule="R18.a"):
             return ("live", ast.unparse(x))
         return ("other", ast.unparse(x))
 
+    # an argument the two constructors have in common configures the inner
+    # environment: the outer constructor hands it on as given
+    star = any(k.arg is None for k in ci.keywords)
+    for P in [q for q in init_raw.params[1:] if q in sparams]:
+        got = ki.get(P)
+        if got is None and star:
+            continue  # may travel in the `**options` of the call: not decided here (the floor below still counts what is visible)
+        if got is None or source(init, got) != ("param", P):
+            shown = "nothing (the default applies)" if got is None else f"`{ast.unparse(got)[:60]}`"
+            chk.violation(
+                rule, init_raw, got if got is not None else ci,
+                f"MultiJobShopGraphEnv(..., {P}=...) passes {shown} as `{P}` to the inner SingleJobShopGraphEnv instead of its own "
+                f"argument: the environment does not run with the {P} it was constructed with",
+                loc=init.loc(got if got is not None else ci),
+            )
+        else:
+            chk.ok(rule, init_raw.qualname, init.loc(got), f"{P} handed on to the inner environment")
     n_kw = 0
     for k, v in ki.items():
         si = source(init, v)
@@ -567,9 +584,30 @@ def _padder(ctx, multi, fallback=False):
     """The method of the multi environment that pads observations: the one
     that calls add_padding.  ``fallback``: otherwise the method that rewrites
     the entries of an observation dict in a loop over its items."""
+    def pads(fn):
+        return any(isinstance(n, ast.Call) and (dotted(n.func) or "").split(".")[-1] == "add_padding" for n in own_nodes(fn.node))
+
     for m in multi.methods.values():
-        if any(isinstance(n, ast.Call) and (dotted(n.func) or "").split(".")[-1] == "add_padding" for n in own_nodes(m.node)):
+        if pads(m):
             return m
+    # the padding loop may be a function of the package the methods delegate to
+    seen, work = set(), [(m, 0) for m in multi.methods.values()]
+    while work:
+        fn, d = work.pop(0)
+        if fn.qualname in seen or d > 3:
+            continue
+        seen.add(fn.qualname)
+        if fn.cls is not multi and fn.name != "add_padding" and not isinstance(fn.node, ast.Lambda) and pads(fn) and (fn.cls is None or fn.cls.qualname in multi.mro):
+            return fn
+        for n in own_nodes(fn.node):
+            if isinstance(n, ast.Call):
+                try:
+                    ts, _ = ctx.res.callees(fn, n, fn.cls if fn.cls is not None else None)
+                except Exception:
+                    continue
+                for t in ts:
+                    if t.module.name.startswith(multi.module.name.rsplit(".", 1)[0]) and (t.cls is None or t.cls is multi):
+                        work.append((t, d + 1))
     if fallback:
         for m in multi.methods.values():
             for lp in own_nodes(m.node):
@@ -643,8 +681,12 @@ def key_agreement(ctx):
 def _module_const(ctx, fi, e):
     """Resolves a module-level constant name to its value expression."""
     seen = 0
-    while isinstance(e, ast.Name) and e.id in fi.module.assigns and seen < 4:
-        e = fi.module.assigns[e.id]
+    while isinstance(e, ast.Name) and seen < 4:
+        # code inlined from another module resolves its globals there
+        mi = ctx.repo.modules.get(getattr(e, "_origin_mod", None) or "") or fi.module
+        if e.id not in mi.assigns:
+            break
+        e = mi.assigns[e.id]
         seen += 1
     return e
 
@@ -800,6 +842,8 @@ def padding(ctx):
     for p, d in zip(args.args[-len(args.defaults):], args.defaults):
         if p.arg == "padding_value":
             dflt = d
+    if isinstance(dflt, ast.Name):
+        dflt = _module_const(ctx, ap, dflt)  # a named constant of the module (possibly imported)
     if dflt is not None and linear(dflt) == {1: -1}:
         chk.ok("R18.e", ap.qualname, ap.loc(), "add_padding default fill -1 (used for the edge index)")
     else:
